@@ -128,7 +128,9 @@ Qed.
 (* ------------------------------------------------------------------ next unused position
    FULL STATEMENT aimed at (C15_next_unused): every append returns the current length; positions
    strictly increase between clears (for every operation of the machine).
-   PROVED: for every appending primitive of the model - the four scalar record operations, the
+   (The full statement is proved in Proofs/C15Q.v, theorem next_unused, which lifts the lemmas
+   below through `step` for every operation and adds the matrix multiplications.)
+   PROVED HERE: for every appending primitive of the model - the four scalar record operations, the
    batch constructors / resets (append_nullary_repeating) and the four batch helpers behind
    every elementwise container operation - the new entries are appended (the old tape is a
    prefix), the positions handed out are exactly old length, old length + 1, ... in iteration
@@ -255,7 +257,9 @@ Proof. reflexivity. Qed.
    earlier cycles), "clear list t; reset the inputs (in any chosen order)" leads to EXACTLY the
    same machine state as "clear list t; create each input again as a new variable / new
    variables container with the same numbers" - so every script run afterwards returns
-   identical results step by step (run_after_cycle).  What this leaves unproved is the frame
+   identical results step by step (run_after_cycle).  (The frame property is proved in
+   Proofs/C15Q.v, theorem cycle_equiv, on top of cycle_is_fresh_start.)  What this lemma alone
+   leaves unproved is the frame
    property: that the registers and lists P does not touch cannot influence it (the right-hand
    machine still carries the old, unrelated registers and the other lists). *)
 Definition recreate (t a : nat) (o : obj) : @tm_op R :=
